@@ -172,10 +172,10 @@ def check_left(run, S, name, spec, kw):
     op, nleaves, prim = spec[1], spec[2], spec[3]
     r = run.use_root(S, name)
     if r is None:
-        run.ob('%s:%s:present' % (PROP, name), False, rule='root-present', expected='root', found='missing (this scalar-on-the-left form no longer exists)')
+        run.ob('%s:%s:present' % (run.prop, name), False, rule='root-present', expected='root', found='missing (this scalar-on-the-left form no longer exists)')
         return
     where = r.get('span')
-    key = '%s:%s' % (PROP, name)
+    key = '%s:%s' % (run.prop, name)
     ls = ret_leaves(r['out'])
     rets = [l for g_, l in ls if l['k'] == 'ret']
     others = [l for g_, l in ls if l['k'] != 'ret']
